@@ -35,7 +35,7 @@ from operon_ai.state.genome import Genome, Gene, GeneType, ExpressionLevel
 ID = "C20"
 LEVEL = "exploration"
 ENGINE = "seq"
-RUNS = {"quick": 60_000, "thorough": 2_500_000}
+RUNS = {"quick": 100_000, "thorough": 3_000_000}
 RULE = ("seeded histories (depth 2..8 quick / 2..14 thorough) over {add_gene new/existing, mutate, rollback_mutation, "
         "set_expression/silence/activate, replicate(mutations, inherit_expression), express(context), toggle "
         "allow_mutations} applied to any genome of a lineage (root + up to 4 descendants) built from 1..5 genes over 4 "
